@@ -178,6 +178,7 @@ class Recorder:
         if len(self.violations) >= 3 or len(self.inconclusive) >= 4:
             # a broken tree can make every remaining obligation slow: stop after a few violations / inconclusive ones
             self.skipped_after_violations += 1
+            T.STOP_EXPLORATION = True
             return None
         self.obligations += 1
         v = T.prove(goal, timeout_ms=timeout_ms, extra=extra, tactics=tactics)
@@ -275,6 +276,9 @@ class Recorder:
         return v
 
     def result(self, error=None):
+        if T.BUDGET_EXHAUSTED:
+            self.inconclusive.append(f"{self.task}: {T.BUDGET_EXHAUSTED}")
+            T.BUDGET_EXHAUSTED = None
         return {
             "task": self.task,
             "obligations": self.obligations,
